@@ -60,7 +60,7 @@ var cores = []string{
 	"spin-cfor-empty", "spin-true-empty", "spin-forin-empty", "spin-recursion-quiet", "spin-forin-big", "spin-anon-expr", "block-recv-after-first",
 	"block-range-body-recv", "block-range-shared", "spin-fib", "spin-mutual",
 	"lib-spin-5", "lib-spin-v", "lib-block-5", "lib-block-v", "lib-spin-1", "lib-send", "lib-range", "lib-rec", "lib-closure",
-	"block-relay-implicit", "block-relay-explicit", "block-relay-func", "spin-ptr-cycle", "spin-ptr-cycle-set",
+	"spin-modcopy", "block-relay-implicit", "block-relay-explicit", "block-relay-func", "spin-ptr-cycle", "spin-ptr-cycle-set",
 	"spin-quiet-elseif", "spin-quiet-else", "spin-quiet-switch", "spin-quiet-try", "spin-quiet-nested",
 	"block-fanin-send", "block-fanout-recv",
 	"block-recv-if", "block-recv-arg", "block-recv-switch",
@@ -117,6 +117,10 @@ func renderCore(core string, u string) string {
 		return "func r" + u + "(n) { if n > 0 { r" + u + "(n - 1) }; tick() }\nfor { r" + u + "(3) }"
 	case "spin-empty":
 		return "for { }"
+	// a module copied over and over (assignment copies the whole chain of scopes) while another goroutine keeps
+	// assigning to a variable of the outermost scope and the main script reads it
+	case "spin-modcopy":
+		return "module mm" + u + " { mv = 1 }\ngq" + u + " = 0\ngo func() { for { cx" + u + " = mm" + u + "; tick() } }()\ngo func() { for { gq" + u + " = gq" + u + " + 1; tick() } }()\nfor { gz" + u + " = gq" + u + "; tick() }"
 	// a relay that has taken its item and now waits for a receiver nobody provides
 	case "block-relay-implicit":
 		return "rs" + u + " = make(chan int64, 1)\nrs" + u + " <- 1\nrd" + u + " = make(chan int64)\nrd" + u + " <- rs" + u
@@ -532,6 +536,14 @@ func (Prop) Gen(seed int64, tier string) *harness.Case {
 			// ever calling a host function: it would never yield under
 			// context.Background()
 			if w.Wrappers[i].K == "defer" && w.Wrappers[i].A%3 == 2 {
+				w.Wrappers[i].A = 0
+			}
+			// wrappers that loop by themselves (a try inside `for` whose catch block is loop control) or that may
+			// never reach the core (a finally behind a failing catch) could spin without a single host call
+			if w.Wrappers[i].K == "try-body" && w.Wrappers[i].A%8 >= 5 {
+				w.Wrappers[i].A = 0
+			}
+			if w.Wrappers[i].K == "finally" && w.Wrappers[i].A%5 >= 2 {
 				w.Wrappers[i].A = 0
 			}
 		}
